@@ -3,7 +3,7 @@ independent Python BIP-39 as the property's own predicate."""
 import hashlib
 
 from coqrun import pb, tx
-from gen import pyref
+from gen import prims, pyref
 from gen.util import ASCII_WS, UNICODE_WS, lib_vs_model, rbytes, short
 
 NEEDS = dict(cli=True, harness=True, shim=False, release=True)
@@ -59,6 +59,7 @@ def layout(rng, ws, pool):
 
 def run(ctx):
     rng = ctx.rng
+    prims.check(ctx, ['sha256'])
     thorough = ctx.tier == "thorough"
     wl = words()
     widx = {w: i for i, w in enumerate(wl)}
